@@ -26,10 +26,15 @@ def main():
     FU = D1 + [un(o, f) for o in UN for f in D1] + [un(o, f, a, b) for o in TM for f in D1 for a, b in ((0, 1), (1, 2))] + \
          [bi(o, f, ay) for o in BB for f in D1] + [bi("implies", bx, f) for f in D1]
     D3 = [un(o1, bi(o2, ax, un(o3, ay, a, b))) for o1 in ("alw", "hist", "ev", "once") for o2 in BB for o3 in TM for a, b in ((0, 1), (1, 1))]
+    X_ = var("x")
+    DP = [pred(c_, t_, const(2)) for c_ in ("ge", "le") for t_ in
+          [un(o, X_) for o in ("alw", "ev", "once", "hist", "prev", "next", "rise", "fall")] + [un(o, X_, a, b) for o in TM for a, b in ((0, 1), (1, 2))] +
+          [bi("and", X_, var("y")), bi("or", X_, var("y")), un("abs", un("alw", X_)), bi("sub", un("onceT", X_, 0, 1), un("prev", X_))]]
+    DP = DP + [un("not", f) for f in DP[:12]] + [un("alwT", f, 0, 1) for f in DP[:12]]
     if quick:
         FU = [f for i, f in enumerate(FU) if i % 3 == core.seed() % 3]
-    r = explmc.run("C20_explain", FU + D3, maxn=3, workers=10)
-    rep.add_mc("ExplainMC: Explain!Explanation is a sufficient cause for %d formulas x all traces of length <= 3 over {1,2,3}" % len(FU + D3), r)
+    r = explmc.run("C20_explain", FU + D3 + DP, maxn=3, workers=10)
+    rep.add_mc("ExplainMC: Explain!Explanation is a sufficient cause for %d formulas x all traces of length <= 3 over {1,2,3}" % len(FU + D3 + DP), r)
     if r["violated"]:
         rep.mc_violation("ExplainMC", r)
     if not quick:
@@ -40,7 +45,7 @@ def main():
             rep.mc_violation("ExplainMC4", r)
     devs = {}
     for dev, fs in (("impliesPolarity", [bi("implies", un("alw", ax), ay), bi("implies", un("evT", ax, 0, 1), ay)]), ("riseNoPrev", [un("next", un("rise", bx)), un("fall", ax)]),
-                    ("firstInterval", D3)):
+                    ("firstInterval", D3), ("predicateKeepsPolarity", DP)):
         rr = explmc.run("C20_explain_dev_" + dev, fs, maxn=3, dev=[dev], workers=4, expect_violation=True)
         devs[dev] = rr["violated"]
     rep.extra["deviation_on_counterexamples"] = devs
@@ -78,6 +83,18 @@ def main():
             q = bi(rng.choice(["and", "or", "implies"]), atom(), atom()) if rng.random() < 0.7 else un(rng.choice(["alwT", "evT", "onceT"]), atom(), *rng.choice(IVS))
             q = un(rng.choice(["rise", "fall"]), q)
             phi = rng.choice([q, un("not", q), un("evT", q, 0, rng.choice([1, 2, 3])), un("alwT", q, 0, rng.choice([1, 2])), un("next", q)])
+            N = rng.choice([2, 3, 4])
+        if rng.random() < 0.1:
+            # a comparison whose operand is the value of a temporal / Boolean sub-formula (no polarity below the comparison)
+            v0 = rng.choice(vs)
+            inner = rng.choice([lambda: un(rng.choice(["alwT", "evT", "onceT", "histT"]), var(v0), *rng.choice(IVS)),
+                                lambda: un(rng.choice(["alw", "ev", "once", "hist", "prev", "next", "rise", "fall"]), var(v0)),
+                                lambda: bi(rng.choice(["and", "or"]), var(v0), var(rng.choice(vs))),
+                                lambda: un("abs", un(rng.choice(["alw", "hist"]), var(v0))),
+                                lambda: bi("sub", un("onceT", var(v0), 0, 1), un("prev", var(v0)))])()
+            phi = pred(rng.choice(["ge", "le", "gt", "lt"]), inner, const(thr[v0]))
+            if rng.random() < 0.4:
+                phi = rng.choice([un("not", phi), un("alwT", phi, 0, 1), bi("or", phi, atom()), un("next", phi)])
             N = rng.choice([2, 3, 4])
         vs_used = vars_of(phi)
         if len(vs_used) * N > 6:
